@@ -76,7 +76,7 @@ NULL_THR = 1e-3   # realisations with min|H_k| below this on a used bin are excl
 POWERS_DB = (0.0, -3.0, -10.0)
 JAKES_L = 8
 PREPASS_MAX_FFT = 4   # these configurations run serially in the parent first -> smallest witnesses
-FORMS = ("c128", "strided", "reversed", "c64", "int64", "float64")
+FORMS = ("c128", "strided", "reversed", "c64", "int64", "float64", "zeros", "zero_head")
 
 
 # ----------------------------------------------------------------------
@@ -88,11 +88,17 @@ def tier_params(tier):
                     big=[(fft, cp, used) for fft in (32, 64, 128) for cp in range(fft + 1)
                          for used in sorted({2, fft // 2, fft - 2, fft})] + [(64, 16, 52)],
                     ch_lengths_full="three", ch_lengths_boundary="two",
-                    nreal_full=3, nreal_boundary=3, ch_used_16=None, hist_depth=4)
+                    nreal_full=3, nreal_full_3taps=3, nreal_boundary=3, ch_used_16=None, ch_cp_16=None,
+                    ch_skip=(), hist_depth=4)
     return dict(F_all=8, F_full=6, Fp=10,
-                big=[(16, cp, used) for cp in range(17) for used in range(2, 17, 2)] + [(64, 16, 52)],
+                big=[(16, cp, used) for cp in range(17) for used in range(2, 17, 2)] + [(64, 16, 52)] +
+                    [(15, cp, used) for cp in (0, 4, 15) for used in (2, 8, 14)] +
+                    [(64, 64, 64), (64, 0, 2), (63, 63, 62), (63, 16, 52), (128, 128, 128), (128, 32, 100),
+                     (128, 0, 126), (127, 127, 126), (127, 9, 2)],
                 ch_lengths_full="two", ch_lengths_boundary="two",
-                nreal_full=2, nreal_boundary=2, ch_used_16=(2, 8, 14, 16), hist_depth=3)
+                nreal_full=2, nreal_full_3taps=1, nreal_boundary=2, ch_used_16=(2, 8, 14, 16),
+                ch_cp_16=(0, 1, 8, 16), ch_skip=((64, 0, 2), (63, 16, 52), (128, 0, 126), (127, 9, 2)),
+                hist_depth=3)
 
 
 def configs(tier):
@@ -114,18 +120,22 @@ def configs(tier):
 def channel_configs(tier):
     p = tier_params(tier)
     for cfg in configs(tier):
-        if cfg[0] == 16 and p["ch_used_16"] is not None and cfg[2] not in p["ch_used_16"]:
+        if cfg[0] == 16 and p["ch_used_16"] is not None and (
+                cfg[2] not in p["ch_used_16"] or cfg[1] not in p["ch_cp_16"]):
+            continue
+        if cfg in p["ch_skip"]:         # Part R only
             continue
         yield cfg
 
 
 def lengths(used):
-    return sorted({1, used - 1, used, used + 1, 2 * used, 2 * used + 3} - {0, -1})
+    """0 = empty input: legitimate (no OFDM symbol, empty output)"""
+    return sorted({0, 1, used - 1, used, used + 1, 2 * used, 2 * used + 3} - {-1})
 
 
 def channel_lengths(used, which):
     if which == "all":
-        return lengths(used)
+        return [n for n in lengths(used) if n > 0]
     if which == "three":
         return [1, used + 1, 2 * used + 3]
     return [used + 1, 2 * used + 3]     # 2 symbols with padding; >= 3 symbols with padding
@@ -146,10 +156,14 @@ def _canonical_power_tuples(k):
     return out
 
 
+NINF = float("-inf")              # a tap of exactly zero power: reported tap value 0
 _POW_FULL = {k: _canonical_power_tuples(k) for k in (1, 2, 3)}          # 1 / 7 / 25 tuples
+_POW_FULL[2] = _POW_FULL[2] + [(0.0, NINF), (NINF, 0.0)]               # + zero-power taps: 1 / 9 / 26
+_POW_FULL[3] = _POW_FULL[3] + [(0.0, NINF, -3.0)]
 _POW_BOUNDARY = {1: [(0.0,)],
-                 2: [(0.0, 0.0), (0.0, -10.0), (-10.0, 0.0), (-3.0, -10.0)],
-                 3: [(0.0, 0.0, 0.0), (0.0, -3.0, -10.0), (-10.0, -3.0, 0.0), (-10.0, 0.0, -3.0)]}
+                 2: [(0.0, 0.0), (0.0, -10.0), (-10.0, 0.0), (0.0, NINF), (NINF, 0.0)],
+                 3: [(0.0, 0.0, 0.0), (0.0, -3.0, -10.0), (-10.0, -3.0, 0.0), (0.0, NINF, -3.0)]}
+PROFILE_FORMS = ("raw", "profile_object", "discretized_profile")
 
 
 def delay_sets(cp, full):
@@ -161,15 +175,17 @@ def delay_sets(cp, full):
 
 
 # histories: triples chosen so that consecutive ones share one or two of the three numbers
-H_TRIPLES = [(4, 1, 2), (8, 1, 2), (8, 1, 4), (4, 1, 4), (8, 3, 6), (6, 3, 2), (6, 0, 4), (16, 1, 2)]
-H_ATTRS = ([("fft_size", v) for v in (4, 6, 8, 16)] + [("cp_size", v) for v in (0, 1, 3)] +
+H_TRIPLES = [(4, 1, 2), (8, 1, 2), (8, 1, 4), (4, 1, 4), (8, 3, 6), (7, 3, 2), (5, 0, 4), (16, 1, 2)]
+H_ATTRS = ([("fft_size", v) for v in (4, 5, 7, 8, 16)] + [("cp_size", v) for v in (0, 1, 3)] +
            [("num_used_subcarriers", v) for v in (2, 4, 6)])
 H_INVALID = ((8, 9, 4), (16, 0, 5))     # invalid cp; valid fft/cp with an odd used count
 H_READS = ("idx", "mod", "demod", "tx")
 H_CH_DELAYS = (0, 1)
 H_CH_POWERS = (0.0, -3.0)
-H_ROOTS = (0, 2, 4, 6)          # BFS roots: (4,1,2) (8,1,4) (8,3,6) (6,0,4); all triples are set-events
+H_ROOTS = (0, 2, 4, 6)          # BFS roots: (4,1,2) (8,1,4) (8,3,6) (5,0,4); all triples are set-events
 H_FREQ_SIZES = (8, 2, 16)
+# several live objects used alternately (used == fft -> constructed with num_used_subcarriers=None)
+M_TRIPLES = [(4, 1, 2), (8, 1, 4), (8, 3, 6), (5, 2, 2), (7, 3, 4), (6, 0, 4), (8, 8, 8), (16, 16, 16), (9, 9, 8)]
 
 
 def units(tier):
@@ -179,6 +195,9 @@ def units(tier):
         yield ("par", fft)
     for i in H_ROOTS:
         yield ("hist", (0, 0, 0), i)
+    for i in range(len(M_TRIPLES)):
+        for j in range(i + 1, len(M_TRIPLES)):
+            yield ("pair", (0, 0, 0), i, j)
     for cfg in configs(tier):
         yield ("rt", cfg)
     for cfg in channel_configs(tier):
@@ -208,6 +227,10 @@ def make_input(form, n, off):
         x = 1.0 + np.arange(n, dtype=float) / 8.0
         return x, x.astype(complex)
     v = syms(n, off)
+    if form == "zeros":            # all-zero block
+        v[:] = 0.0
+    elif form == "zero_head":      # the first OFDM symbol(s) all zero, data only at the end
+        v[:max(1, (2 * n) // 3)] = 0.0
     if form == "c64":
         x = v.astype(np.complex64)
         return x, x.astype(complex)
@@ -440,9 +463,10 @@ def check_roundtrip(chk, case):
             chk.outcome("cp_edge_configs", (fft, cp))
         if used < fft:
             chk.outcome("guard_bins", fft - 1 - used)
-        o = OFDM(fft, cp, used)
+        chk.outcome("ctor_used_arg", case.get("ctor", "explicit"))
+        o = OFDM(fft, cp) if case.get("ctor") == "none" else OFDM(fft, cp, used)
         roundtrip_relations(chk, case, o, (fft, cp, used), n, off, form)
-        if form == "c128":
+        if form == "c128" and n > 0:
             aliasing_relations(chk, case, OFDM(fft, cp, used), (fft, cp, used), n, off)
 
 
@@ -452,20 +476,28 @@ def run_rt_unit(chk, cfg, off):
         for form in FORMS:
             check_roundtrip(chk, {"kind": "roundtrip", "fft": fft, "cp": cp, "used": used, "n": n,
                                   "form": form, "phase_offset": off})
+        if used == fft:      # alternative entry point: num_used_subcarriers omitted
+            check_roundtrip(chk, {"kind": "roundtrip", "fft": fft, "cp": cp, "used": used, "n": n,
+                                  "form": "c128", "ctor": "none", "phase_offset": off})
 
 
 # ----------------------------------------------------------------------
 # Part C relations
 # ----------------------------------------------------------------------
-def new_channel(delays, powers, seed):
-    from pyphysim.channels.fading import TdlChannel
+def new_channel(delays, powers, seed, how="raw"):
+    from pyphysim.channels.fading import TdlChannel, TdlChannelProfile
     from pyphysim.channels.fading_generators import JakesSampleGenerator
     jakes = JakesSampleGenerator(Fd=0.0, Ts=1.0, L=JAKES_L, RS=np.random.RandomState(int(seed)))
-    return TdlChannel(jakes, tap_powers_dB=np.array(powers, dtype=float),
-                      tap_delays=np.array(delays, dtype=float))
+    pw, dl = np.array(powers, dtype=float), np.array(delays, dtype=float)
+    if how == "raw":
+        return TdlChannel(jakes, tap_powers_dB=pw, tap_delays=dl)
+    prof = TdlChannelProfile(pw, dl, "c02")
+    if how == "discretized_profile":
+        prof = prof.get_discretize_profile(1.0)
+    return TdlChannel(jakes, channel_profile=prof)
 
 
-def equalize_relations(chk, case, o, eq, ch, triple, n, off, delays, ctx=()):
+def equalize_relations(chk, case, o, eq, ch, triple, n, off, delays, ctx=(), pre_sizes=()):
     """(5) on the given (possibly reused) OFDM object / equaliser / channel.
     Returns the reported impulse-response object or None."""
     fft, cp, used = triple
@@ -508,6 +540,8 @@ def equalize_relations(chk, case, o, eq, ch, triple, n, off, delays, ctx=()):
         return ir
     d = np.asarray(o.demodulate(np.array(rx[:tx.size])))
     dc = d.copy()
+    for N in pre_sizes:        # the response is first asked for at other sizes than the OFDM's
+        ir.get_freq_response(N)
     eqd = np.asarray(eq.equalize_data(d, ir))
     chk.count("n_equalized_symbols", int(xpad.size))
     if not same_content(d, dc):
@@ -607,8 +641,13 @@ def check_channel(chk, case):
             chk.outcome("cp_edge_channel_configs", (fft, cp))
         o = OFDM(fft, cp, used)
         eq = OfdmOneTapEqualizer(o)
-        ch = new_channel(delays, powers, seed)
-        ir = equalize_relations(chk, case, o, eq, ch, (fft, cp, used), n, off, delays)
+        how = case.get("profile_form", "raw")
+        chk.outcome("profile_form", how)
+        if any(pw == NINF for pw in powers):
+            chk.outcome("zero_power_tap", tuple(i for i, pw in enumerate(powers) if pw == NINF))
+        ch = new_channel(delays, powers, seed, how)
+        pre = (fft + 1, max(1, fft // 2), 2 * fft) if case.get("aliasing") else ()
+        ir = equalize_relations(chk, case, o, eq, ch, (fft, cp, used), n, off, delays, pre_sizes=pre)
         if ir is not None and case.get("aliasing"):
             equalize_aliasing(chk, case, o, eq, ir, (fft, cp, used), n, off)
 
@@ -617,16 +656,116 @@ def run_ch_unit(chk, cfg, ds, full, off, seed, p):
     fft, cp, used = cfg
     pw = (_POW_FULL if full else _POW_BOUNDARY)[len(ds)]
     which = p["ch_lengths_full"] if full else p["ch_lengths_boundary"]
-    nreal = p["nreal_full"] if full else p["nreal_boundary"]
+    nreal = (p["nreal_full_3taps"] if len(ds) == 3 else p["nreal_full"]) if full else p["nreal_boundary"]
     for ip, pt in enumerate(pw):
         for r in range(nreal):
-            for n in channel_lengths(used, which):
+            first = ip == 0 and r == 0
+            ns = channel_lengths(used, which)
+            for n in ([1] if first and 1 not in ns else []) + ns:
                 case = {"kind": "channel", "fft": fft, "cp": cp, "used": used, "n": n,
                         "delays": list(ds), "powers_dB": list(pt),
                         "rs_seed": rs_seed(seed, r), "phase_offset": off}
-                if ip == 0 and r == 0:
+                if first:
                     case["aliasing"] = True
                 check_channel(chk, case)
+                if first and n == used + 1:      # alternative entry points for the profile
+                    for how in PROFILE_FORMS[1:]:
+                        check_channel(chk, dict(case, profile_form=how))
+
+
+# ----------------------------------------------------------------------
+# Part M: several live objects used alternately
+# ----------------------------------------------------------------------
+def m_delays(triple):
+    fft, cp, used = triple
+    if cp == 0:
+        return (0,)
+    if cp == fft:
+        return (0, 1, fft)          # far end: taps at 0 and fft together with a third tap
+    return (0, 1, 3) if cp >= 3 else (0, 1)
+
+
+def equalized_ok(eqd, xpad, ir, fft, used):
+    """-> None (excluded: spectral null) / True / False for equalised data against x ++ zeros"""
+    idx = np.asarray(ir.tap_indexes_sparse).astype(np.int64).ravel()
+    H = true_freq_response(idx, np.asarray(ir.tap_values_sparse)[:, 0], fft, ref_used_bins(fft, used))
+    hmin, hmax = float(np.min(np.abs(H))), float(np.max(np.abs(H)))
+    if hmin < NULL_THR:
+        return None
+    eqd = np.asarray(eqd)
+    return eqd.shape == xpad.shape and numerics.close(eqd, xpad, kappa=max(1.0, hmax) / hmin, c=C_EQ)
+
+
+def check_pair(chk, case):
+    from pyphysim.modulators.ofdm import OFDM, OfdmOneTapEqualizer
+    off, seed = case["phase_offset"], int(case["rs_seed"])
+    ctx = ("multi_object",)
+    with chk.guard(ctx, case):
+        chk.count("eval_object_pairs")
+        chk.nontriv(("pair",) + tuple(case["A"]) + tuple(case["B"]))
+        L = {}
+        for k, tag in enumerate(("A", "B")):
+            t = tuple(case[tag])
+            o = OFDM(t[0], t[1]) if t[2] == t[0] else OFDM(*t)
+            pw = (0.0, -3.0, NINF, -10.0)[:len(m_delays(t))] if tag == "B" else (0.0, -3.0, -10.0)[:len(m_delays(t))]
+            L[tag] = dict(t=t, o=o, eq=OfdmOneTapEqualizer(o), dl=m_delays(t),
+                          ch=new_channel(m_delays(t), pw, seed + k, PROFILE_FORMS[k]))
+        chk.outcome("pair_has_odd_fft", (L["A"]["t"][0] % 2, L["B"]["t"][0] % 2))
+        # 1) first transmission of each object; its impulse-response OBJECT is kept
+        for tag in ("A", "B"):
+            e = L[tag]
+            fft, cp, used = e["t"]
+            e["x1"] = syms(used + 1, off)
+            e["tx1"] = np.asarray(e["o"].modulate(e["x1"].copy()))
+            e["rx1"] = np.asarray(e["ch"].corrupt_data(e["tx1"].copy()))
+            e["ir1"] = e["ch"].get_last_impulse_response()
+        # 2) alternate use: all relations on each object while the other one is alive and used
+        for tag in ("B", "A", "A", "B", "A"):
+            e = L[tag]
+            fft, cp, used = e["t"]
+            for nn in (1, 2 * used + 3):
+                roundtrip_relations(chk, case, e["o"], e["t"], nn, off, "c128", ctx)
+            e["x2"] = syms(2 * used + 3, off)
+            e["tx2"] = np.asarray(e["o"].modulate(e["x2"].copy()))
+            e["rx2"] = np.asarray(e["ch"].corrupt_data(e["tx2"].copy()))
+        # 3) alternative entry points after several transmissions of both channels
+        for tag in ("A", "B"):
+            e, other = L[tag], L["B" if tag == "A" else "A"]
+            fft, cp, used = e["t"]
+            ir_last = e["ch"].get_last_impulse_response()
+            if ir_last is e["ir1"] or ir_last is other["ch"].get_last_impulse_response() or \
+                    ir_last.num_samples != e["tx2"].size or e["ir1"].num_samples != e["tx1"].size or \
+                    np.asarray(ir_last.tap_indexes_sparse).tolist() != list(e["dl"]):
+                chk.fail(ctx + ("get_last_impulse_response", "not_the_response_of_this_channels_last_transmission"),
+                         case, observed=(ir_last.num_samples, np.asarray(ir_last.tap_indexes_sparse).tolist()),
+                         expected=(e["tx2"].size, list(e["dl"])))
+                continue
+            for which, x, tx, rx, ir in (("late_fetched_last_response", e["x2"], e["tx2"], e["rx2"], ir_last),
+                                         ("saved_response_of_earlier_transmission", e["x1"], e["tx1"], e["rx1"],
+                                          e["ir1"])):
+                nsym = -(-x.size // used)
+                xpad = np.concatenate([x, np.zeros(nsym * used - x.size, dtype=complex)])
+                ir.get_freq_response(other["t"][0])          # asked at the OTHER object's size first
+                d = np.asarray(e["o"].demodulate(np.array(rx[:tx.size])))
+                ok = equalized_ok(e["eq"].equalize_data(d, ir), xpad, ir, fft, used)
+                chk.count("n_pair_equalizations")
+                if ok is None:
+                    chk.count("excluded_spectral_null")
+                elif not ok:
+                    chk.fail(ctx + ("equalize", "symbols_not_recovered", which), case,
+                             observed=np.asarray(e["eq"].equalize_data(d, ir))[:4], expected=xpad[:4])
+            # differential against a lone fresh object
+            lone = np.asarray((OFDM(fft, cp, used)).modulate(e["x2"].copy()))
+            if lone.shape != e["tx2"].shape or not np.array_equal(lone, e["tx2"]):
+                chk.fail(ctx + ("modulate", "differs_from_lone_fresh_object"), case,
+                         observed=e["tx2"][:4], expected=lone[:4])
+
+
+def run_pair_unit(chk, i, j, off):
+    check_pair(chk, {"kind": "pair", "A": list(M_TRIPLES[i]), "B": list(M_TRIPLES[j]),
+                     "phase_offset": off, "rs_seed": rs_seed(chk.seed, 0)})
+    check_pair(chk, {"kind": "pair", "A": list(M_TRIPLES[j]), "B": list(M_TRIPLES[i]),
+                     "phase_offset": off, "rs_seed": rs_seed(chk.seed, 0)})
 
 
 # ----------------------------------------------------------------------
@@ -806,6 +945,8 @@ def run_unit(chk, u, off, p):
         run_rt_unit(chk, u[1], off)
     elif u[0] == "hist":
         run_hist_unit(chk, u[2], off, p["hist_depth"])
+    elif u[0] == "pair":
+        run_pair_unit(chk, u[2], u[3], off)
     else:
         _, cfg, ds, full = u
         run_ch_unit(chk, cfg, ds, full, off, chk.seed, p)
@@ -830,6 +971,8 @@ def main(chk: Check):
                "{0,1,cp//2,cp-1,cp} and the power tuples a fixed list of 1/4/4, not the full product")
     chk.assume("'inputs not modified' means the VALUES of the argument arrays; demodulate re-shapes the "
                "caller's array object in place (shape only), which the property does not forbid")
+    chk.assume("an empty input (0 symbols -> empty output), an all-zero input and a tap of exactly zero power "
+               "(-inf dB, reported tap value 0, still counted for the channel memory) are inside the domain")
     chk.assume("histories: attribute assignments are enabled only when the resulting triple is valid; "
                "histories merge (beyond depth 1) when OFDM object, channel and reported impulse response "
                "have identical whole-object digests")
@@ -838,12 +981,14 @@ def main(chk: Check):
                      F_all=p["F_all"], F_full=p["F_full"], Fp=p["Fp"],
                      extra_configs=len(p["big"]), configs=len(configs(tier)),
                      channel_configs=len(list(channel_configs(tier))),
-                     realisations_per_profile=[p["nreal_full"], p["nreal_boundary"]],
+                     realisations_per_profile_full_full3taps_boundary=[p["nreal_full"], p["nreal_full_3taps"],
+                                                                       p["nreal_boundary"]],
                      channel_lengths_full_alphabet=p["ch_lengths_full"],
                      channel_lengths_boundary_alphabet=p["ch_lengths_boundary"],
                      power_tuples_full=[len(_POW_FULL[k]) for k in (1, 2, 3)],
                      power_tuples_boundary=[len(_POW_BOUNDARY[k]) for k in (1, 2, 3)],
-                     input_forms=list(FORMS), history_depth=p["hist_depth"],
+                     input_forms=list(FORMS), profile_forms=list(PROFILE_FORMS),
+                     multi_object_triples=[list(t) for t in M_TRIPLES], history_depth=p["hist_depth"],
                      history_triples=[list(t) for t in H_TRIPLES],
                      history_events_per_state=len(h_enabled(H_TRIPLES[0])))
     # smallest configurations first, serially, so that the stored witness of every
@@ -873,6 +1018,10 @@ def main(chk: Check):
     chk.require_outcomes("guard_bins", 3)
     chk.require_outcomes("params", 2)
     chk.require_outcomes("input_form", len(FORMS))
+    chk.require_outcomes("profile_form", 3)
+    chk.require_outcomes("zero_power_tap", 2)
+    chk.require_outcomes("ctor_used_arg", 2)
+    chk.require_outcomes("pair_has_odd_fft", 4)
     chk.require_outcomes("history_params", 12)
     chk.require_outcomes("history_last_event", 6)
     chk.require_outcomes("history_reconfiguration", 4)
@@ -890,5 +1039,7 @@ def replay(case, chk: Check):
         check_channel(chk, case)
     elif kind == "history":
         replay_history(case, chk)
+    elif kind == "pair":
+        check_pair(chk, case)
     else:
         raise ValueError("unknown case kind %r" % (kind,))
